@@ -124,6 +124,11 @@ def main():
         with open(os.path.join(hand, 'Grammar', 'grammar.txt'), 'w', newline='') as fh:
             for s, p in HAND:
                 fh.write('%s\t%r\n' % (s, p))
+        # context-sensitive replacements of different lengths whose alphabetical order is not their order by length
+        cdir = os.path.join(hand, 'Context')
+        for f in os.listdir(cdir):
+            with open(os.path.join(cdir, f), 'w', encoding='utf-8', newline='') as fh:
+                fh.write('#1\t0.4\n;p\t0.3\nno.1\t0.2\nst.\t0.1\n')
         # ---- ruleset 2: trained
         with open(os.path.join(d, 'list.txt'), 'w') as fh:
             fh.write('\n'.join(WORDS) + '\n')
@@ -142,7 +147,7 @@ def main():
             return (min(lens), max(lens)) if lens else (1, 1)
 
         grid = []
-        for mn, mx in [(0, 0), (6, 0), (0, 7), (6, 8), (1, 1), (8, 8), (0, 1), (22, 0), (5, 1100)]:
+        for mn, mx in [(0, 0), (6, 0), (0, 7), (6, 8), (1, 1), (8, 8), (0, 1), (22, 0), (5, 1100), (0, 3), (0, 9), (3, 0)]:
             grid.append({'min': mn, 'max': mx})
         grid += [{'terminals': ['A', 'D']}, {'terminals': ['A', 'D', 'M']}, {'terminals': ['Y', 'A']}, {'regex': ['A']}, {'regex': ['^A', 'D']},
                  {'regex': ['[0-9]{2}']}, {'regex': ['^A\\d+D\\d+$']}, {'regex': ['^[A-Z]\\d', '\\d$']}, {'min': 6, 'max': 10, 'terminals': ['A', 'D', 'O', 'M'], 'regex': ['D']}, {'min': 4, 'terminals': ['A', 'D', 'X', 'Y']}]
